@@ -83,6 +83,13 @@ func (c *VC) heapDefault(st *State, name string, s *Sort) *Term {
 	return c.declare(name+"!0", s)
 }
 
+func (c *VC) heapOr(st *State, name string, s *Sort) *Term {
+	if h, ok := st.heaps[name]; ok {
+		return h
+	}
+	return c.heapDefault(st, name, s)
+}
+
 func (c *VC) sliceHeapName(elem *Sort) string { return "HS_" + sanitize(elem.Name) }
 func (c *VC) ptrHeapName(s *Sort) string      { return "HP_" + sanitize(s.Name) }
 
@@ -495,11 +502,7 @@ func (c *VC) defineVar(st *State, id *ast.Ident, v *Term) {
 func (c *VC) bindVar(st *State, obj types.Object, v *Term) {
 	fr := c.cur()
 	if fr.boxed[obj] {
-		addr := st.alloc
-		st.alloc = c.name("alloc", mk("+", sortInt, st.alloc, intLit64(1)))
-		hn, h := c.ptrHeap(st, v.Sort)
-		st.heaps[hn] = mkStore(h, addr, v)
-		st.env[obj] = addr
+		st.env[obj] = c.allocObj(st, obj.Type(), v)
 		return
 	}
 	if fr.arrBoxed[obj] {
@@ -538,8 +541,7 @@ func (c *VC) readVar(st *State, obj types.Object) *Term {
 		return z
 	}
 	if fr.boxed[obj] {
-		_, h := c.ptrHeap(st, c.sortOf(obj.Type()))
-		return c.sel(h, v)
+		return c.loadAt(st, v, obj.Type())
 	}
 	if fr.arrBoxed[obj] {
 		at := obj.Type().Underlying().(*types.Array)
@@ -557,8 +559,7 @@ func (c *VC) writeVar(st *State, obj types.Object, v *Term) {
 			c.bindVar(st, obj, v)
 			return
 		}
-		hn, h := c.ptrHeap(st, v.Sort)
-		st.heaps[hn] = mkStore(h, addr, v)
+		c.storeAt(st, addr, obj.Type(), v, token.NoPos, obj.Name())
 		return
 	}
 	if fr.arrBoxed[obj] {
@@ -609,7 +610,8 @@ func (c *VC) wfAt(st *State, v *Term, t types.Type) *Term {
 	case *types.Slice:
 		w = mkAnd(w, mk("<", sortBool, mkField(v, "sl_base"), st.alloc))
 	case *types.Pointer:
-		w = mkAnd(w, mk("<", sortBool, v, st.alloc))
+		// a non-nil pointer designates an allocated object: its whole extent lies below alloc
+		w = mkAnd(w, mkOr(mkEq(v, intLit64(0)), mk("<=", sortBool, addrAdd(v, c.sizeof(u.Elem())), st.alloc)))
 	case *types.Struct:
 		s := c.sortOf(t)
 		for i := 0; i < u.NumFields(); i++ {
@@ -1020,8 +1022,8 @@ func (c *VC) execRange(st *State, s *ast.RangeStmt, label string) {
 			n = c.idxLit(at.Len())
 			elemT = at.Elem()
 			elem = func(b *State, i *Term) *Term {
-				_, h := c.ptrHeap(b, c.sortOf(u.Elem()))
-				return c.sel(c.sel(h, p), i)
+				es := c.sizeof(at.Elem())
+				return c.loadAt(b, mk("+", sortInt, p, mk("*", sortInt, intLit64(es), c.idxToInt(i))), at.Elem())
 			}
 		}
 	case *types.Basic:
